@@ -219,7 +219,10 @@ func (checker *Checker) checkInvocationExpression(invocationExpression *ast.Invo
 	// `checkResourceLoss` observes `DefinitelyExited` (with no
 	// `MaybeJumped*` set) and skips, preserving that.
 
-	if returnType == NeverType {
+	// An invocation through optional chaining is skipped when the receiver is nil,
+	// so it does not definitely halt.
+
+	if returnType == NeverType && !isOptionalChainingResult {
 		returnInfo := checker.functionActivations.Current().ReturnInfo
 		returnInfo.DefinitelyHalted = true
 		returnInfo.DefinitelyExited = true
